@@ -56,7 +56,9 @@ Device configuration per session (both tiers): 30 % use luna's 60 MHz full-speed
 `full_speed_only` held), endpoint-0 packet size from {64, 8, 16, 32}, and in 30 % the standard handler is built with
 `skiplist=[GET_CONFIGURATION]` while the check's own handler claims that request (answer 0x5A): a skiplisted standard
 request must fall through.  SETUP transactions to the device's address with endpoint != 0 are part of the foreign
-traffic (answer not judged, endpoint 0 must not be affected; mechanism `setup_for_other_endpoint_disturbs_ep0`).
+traffic (must get no answer: `setup_for_other_endpoint_answered`; endpoint 0 must not be affected:
+`setup_for_other_endpoint_disturbs_ep0`, open finding 5 in findings/C07.md - /repo commit 867ea4d removed the ACK and
+the handler reaction but the stage FSM still restarts).
 
 Not judged: content of GET_STATUS (length and PID only); STALL behaviour for unsupported requests (C10); data
 content rules at multiples of the packet size (C09: such lengths are not generated); corrupted packets (C02/C06:
@@ -99,7 +101,7 @@ REQUIRED_EVENTS = ["vendor_actions_judged", "out_data_packets_judged", "setups_j
                    "bulk_in_packets_seen", "device_acks_seen", "sessions"]
 ASSUMPTIONS = [
     "host timing: inter-packet gaps 2-8 cycles, host ACK 1-4 cycles after the device packet, device must start answering within 48 cycles",
-    "no CRC-damaged packets are generated (C02/C06); the answer to a SETUP for an endpoint other than 0 is not judged",
+    "no CRC-damaged packets are generated (C02/C06)",
     "descriptor lengths and min(wLength, length) are never non-zero multiples of 64 when a terminating ZLP would be needed (C09)",
     "after the first contradiction nothing more is judged on that device; the case continues on a freshly elaborated one",
     "the four history-based mechanism names are decided from the wire history only (abandoned transfer before / foreign ACK inside the failing transfer)",
